@@ -251,6 +251,11 @@ func (c *compiler) StringNode(node *ast.StringNode) {
 }
 
 func (c *compiler) ConstantNode(node *ast.ConstantNode) {
+	if node.Value == nil {
+		// A constant expression may evaluate to nil, which has no type to hash.
+		c.emit(OpNil)
+		return
+	}
 	c.emitPush(node.Value)
 }
 
